@@ -351,3 +351,69 @@ Example C19_example_three_step_history_hook :
     lookup ["build"] (Node va) <> None /\ lookup ["build"] (Node vb) = None /\
     lookup ["build"] (Node vl) = None /\ leaf_at ["artifact"] (Node vl) = Some (VStr "a.tar").
 Proof. exact three_step_history_hook. Qed.
+
+(** * One collection object mounted under several parents (Proofs/C19_shared.v)
+
+    A reusable task group added to two parents gives each of its tasks two
+    namespace paths; the specification judges a call made by name against the
+    path THAT NAME goes through ([C19Spec.call_path], [spec_ok_named]).  In the
+    model a namespace is a value, [run_calls] never rebuilds it and
+    [configuration ns n] depends on the tree and the name alone: that lookups
+    leave nothing behind in the stored configurations is true of the model by
+    construction; that the implementation agrees is checked by the
+    correspondence runs of the shared-group family (both orders, the same task
+    through both mounts, lookups made before the session). *)
+From InvokeVerif Require Import Proofs.C19_shared.
+
+(** Full strength over every tree (groups mounted any number of times) and
+    every canonical name: the path the specification judges a named call by is
+    the list of configurations whose per-setting merge (outermost defining
+    collection wins) the model loads as the collection level for that call,
+    from any session state [c0] -- whatever was looked up or executed before.
+    (Hypotheses are those of C17's reference: a well-formed canonical tree and
+    type-consistent configurations along the path.) *)
+Theorem C19_named_call_judged_by_its_own_mount : forall ns fs c0 n t cfgs,
+  ns_wf ns = true -> ns_canon ns = true ->
+  ref_path ns (segs_of n) = Some (t, cfgs) -> all_compatible cfgs = true ->
+  call_path ns (t_id t) (Some n) = Some cfgs /\
+  exists d,
+    configuration ns n = Ok d /\
+    (forall p, leaf_at p (Node d) = first_some (map (fun g => leaf_at p (Node g)) cfgs)) /\
+    c_collection (fst (step fs c0 (LoadCollection (Node d)))) = Node d.
+Proof. exact named_call_path_level. Qed.
+
+(** Judging by name with no names given is judging by where the task is bound
+    (the form every other C19 statement uses); calls without a name are
+    judged there too. *)
+Theorem C19_spec_by_name_extends_spec : forall c dflts overrides bodies envs obs,
+  spec_ok_named c dflts overrides bodies envs [] obs = C19Spec.spec_ok c dflts overrides bodies envs obs.
+Proof. exact spec_ok_named_nil. Qed.
+
+Theorem C19_unnamed_call_judged_at_home : forall c t, call_path c t None = home c t.
+Proof. exact call_path_unnamed. Qed.
+
+(** Non-vacuity: the group db > t1, t2 under [p] (k.p, only) and under [s]
+    (k.s): the two mounts are different paths of one task (and the second is
+    not where [home] finds it); sessions through both mounts in both orders,
+    the same task through both mounts and back (dedupe off, an environment
+    naming the settings only [p] has) satisfy the specification; the view of
+    the call through [s] has none of [p]'s settings and equals what a session
+    of that call alone shows. *)
+Example C19_example_shared_group :
+  ns_wf shared_tree = true /\
+  call_path shared_tree 2 (Some "p.db.t2") <> call_path shared_tree 2 (Some "s.db.t2") /\
+  call_path shared_tree 2 (Some "s.db.t2") <> home shared_tree 2 /\
+  judge_named [] [("p.db.t1", leaf_call 1); ("s.db.t2", leaf_call 2)] true [[]] = true /\
+  judge_named [] [("s.db.t2", leaf_call 2); ("p.db.t1", leaf_call 1)] true [[]] = true /\
+  judge_named [(1, [SetV Item ["k"] "n" (Leaf (VInt 5))])]
+              [("p.db.t1", leaf_call 1); ("s.db.t1", leaf_call 1); ("p.db", leaf_call 1)] false
+              [[("INVOKE_ONLY", "9"); ("INVOKE_K_P", "7")]] = true /\
+  (exists vp vs,
+     session shared_tree init_e [] [("p.db.t1", leaf_call 1); ("s.db.t2", leaf_call 2)] None true [[]]
+     = Ok ([(1, vp, [], vp); (2, vs, [], vs)], None) /\
+     leaf_at ["only"] (Node vp) = Some (VInt 5) /\ leaf_at ["k"; "p"] (Node vp) = Some (VInt 1) /\
+     leaf_at ["k"; "s"] (Node vp) = None /\
+     leaf_at ["only"] (Node vs) = None /\ leaf_at ["k"; "p"] (Node vs) = None /\
+     leaf_at ["k"; "s"] (Node vs) = Some (VInt 2) /\ leaf_at ["k"; "g"] (Node vs) = Some (VInt 3) /\
+     session shared_tree init_e [] [("s.db.t2", leaf_call 2)] None true [[]] = Ok ([(2, vs, [], vs)], None)).
+Proof. exact shared_group_sessions. Qed.
